@@ -32,6 +32,7 @@ type c04Call struct {
 	ReleaseAt int    `json:"release_ms"` // sdk mode: handler released (-1 never, until cancelled/closed); script: response instant (-1 never)
 	Peer      string `json:"peer,omitempty"` // script mode: answer | never | late | stall-notify | stall-notify-forever
 	Dir       string `json:"dir,omitempty"`  // sdk mode: "" client->server tool call; "s2c": server->client call issued inside a tool handler
+	ByDeadline bool  `json:"by_deadline,omitempty"` // the call's context ends by its deadline instead of an explicit cancel
 }
 
 type c04Spec struct {
@@ -42,6 +43,8 @@ type c04Spec struct {
 	NoStandaloneSSE bool `json:"no_standalone_sse,omitempty"`
 	Version   string    `json:"version,omitempty"` // sdk mode: requested protocol version ("" = the client's default)
 	Propagate bool      `json:"propagate,omitempty"` // stateless HTTP: StreamableHTTPOptions.PropagateRequestCancellation
+	BlockAt   int       `json:"block_at_ms,omitempty"`  // sdk mode: a client notification sent at this instant whose server handler blocks ...
+	BlockMs   int       `json:"block_ms,omitempty"`     // ... for this long (0: none): cancellation notices must not queue behind it
 }
 
 func genC04(r *vh.Rand) c04Spec {
@@ -97,6 +100,20 @@ func genC04(r *vh.Rand) c04Spec {
 		s.Calls = append(s.Calls, cs)
 	}
 	s.EndAt = 20
+	hasS2C := false
+	for _, q := range s.Calls {
+		hasS2C = hasS2C || q.Dir == "s2c"
+	}
+	if s.Mode == "sdk" && s.Transport != "http-stateless" && !hasS2C && r.Chance(1, 3) {
+		s.BlockAt, s.BlockMs = r.Intn(6), r.Range(2, 9)
+	}
+	if s.Mode == "sdk" {
+		for i := range s.Calls {
+			if s.Calls[i].CancelAt > s.Calls[i].StartAt && s.Calls[i].Dir == "" && r.Chance(1, 3) {
+				s.Calls[i].ByDeadline = true
+			}
+		}
+	}
 	if s.Transport == "http" && r.Bool() {
 		s.NoStandaloneSSE = true // server->client traffic can then only travel on request streams
 	}
@@ -134,7 +151,7 @@ func c04Classify(text string, err error) string {
 	switch {
 	case err == nil:
 		return "ok:" + text
-	case errors.Is(err, context.Canceled):
+	case errors.Is(err, context.Canceled), errors.Is(err, context.DeadlineExceeded):
 		return "ctx"
 	case errors.Is(err, mcp.ErrConnectionClosed):
 		return "closed"
@@ -161,7 +178,13 @@ func runC04SDK(c *vh.Case, spec c04Spec) {
 	release[9000], release[9001] = make(chan struct{}), make(chan struct{})
 	close(release[9000])
 	close(release[9001])
-	server := mcp.NewServer(&mcp.Implementation{Name: "s", Version: "1"}, nil)
+	server := mcp.NewServer(&mcp.Implementation{Name: "s", Version: "1"}, &mcp.ServerOptions{
+		ProgressNotificationHandler: func(context.Context, *mcp.ProgressNotificationServerRequest) {
+			log.Add("blocking-notification-start")
+			time.Sleep(ms(spec.BlockMs)) // a synchronous handler: later messages wait for it, cancellation notices must not
+			log.Add("blocking-notification-end")
+		},
+	})
 	server.AddTool(&mcp.Tool{Name: "park", InputSchema: json.RawMessage(`{"type":"object"}`)}, func(ctx context.Context, req *mcp.CallToolRequest) (*mcp.CallToolResult, error) {
 		var a struct{ Nonce int }
 		json.Unmarshal(req.Params.Arguments, &a)
@@ -237,6 +260,10 @@ func runC04SDK(c *vh.Case, spec c04Spec) {
 			defer c.Guard("")
 			time.Sleep(ms(call.StartAt))
 			cctx, cancel := context.WithCancel(ctx)
+			if call.ByDeadline {
+				cancel()
+				cctx, cancel = context.WithTimeout(ctx, ms(call.CancelAt-call.StartAt))
+			}
 			defer cancel()
 			if call.Dir == "s2c" {
 				imu.Lock()
@@ -249,7 +276,9 @@ func runC04SDK(c *vh.Case, spec c04Spec) {
 					defer bg.Done()
 					time.Sleep(ms(call.CancelAt - call.StartAt))
 					log.Add("cancel", "n", call.N)
-					cancel()
+					if !call.ByDeadline {
+						cancel()
+					}
 				}()
 			}
 			if call.ReleaseAt >= 0 {
@@ -272,6 +301,14 @@ func runC04SDK(c *vh.Case, spec c04Spec) {
 			log.Add("call-start", "n", call.N)
 			res, err := cs.CallTool(cctx, &mcp.CallToolParams{Name: "park", Arguments: map[string]any{"nonce": call.N}})
 			log.Add("call-return", "n", call.N, "outcome", c04Classify(textOf(res), err))
+		}()
+	}
+	if spec.BlockMs > 0 {
+		bg.Add(1)
+		go func() {
+			defer bg.Done()
+			time.Sleep(ms(spec.BlockAt))
+			cs.NotifyProgress(ctx, &mcp.ProgressNotificationParams{ProgressToken: "block", Progress: 1})
 		}()
 	}
 	wg.Wait()
@@ -500,6 +537,12 @@ func decideC04(c *vh.Case, spec c04Spec) {
 		}
 		ct, cancelled := cancelT[n]
 		rt, released := releaseT[n]
+		if hs, ok := hstart[n]; ok && released && spec.Mode == "sdk" && hs.T > rt {
+			rt = hs.T // the handler was dispatched after its release (it queued behind a synchronous handler): it answers at once
+		}
+		if _, ok := hstart[n]; !ok && released && spec.Mode == "sdk" && cancelled {
+			released = false // cancelled before its handler was ever dispatched: no response can exist
+		}
 		switch {
 		case cancelled && (!released || ct < rt):
 			if r.T != ct {
@@ -532,7 +575,7 @@ func decideC04(c *vh.Case, spec c04Spec) {
 			case cancelled && (!released || ct < rt):
 				// the matching handler, if it was already running when the cancel happened
 				// ("during handling"), must see the cancellation at the cancel instant
-				if hasStart && hs.Seq < cancelSeq[n] {
+				if hasStart && hs.Seq < cancelSeq[n] && (!cs.ByDeadline || hs.T < ct) {
 					if !hasDone {
 						key := "handler-not-cancelled"
 						if spec.Transport == "http-stateless" && !(spec.Version == "" && spec.Propagate) {
